@@ -155,7 +155,9 @@ class Gen:
         if cls == "PLoad":
             return _r(_lg(rng, 1e-5, 2.0), 4)
         if cls == "ILoad":
-            return _r(_lg(rng, 1e-6, 0.3), 4)
+            # a current written with a minus sign is a magnitude, as in the constructor (only ILoad: the sign of a
+            # phase power / resistance is outside the modelled inputs)
+            return _r(_lg(rng, 1e-6, 0.3), 4) * (-1.0 if rng.random() < 0.15 else 1.0)
         return _r(_lg(rng, 20, 1e5), 4)
 
 
